@@ -881,3 +881,65 @@ def t_enc(t):
 
 
 KINDS.update({"enc": t_enc})
+
+
+# ---------------------------------------------------------------- C05: the checker's term comparison against its Lean model
+def _ser_cspec(spec):
+    import json as _json
+
+    def at(x):
+        return "#%d" % x if isinstance(x, int) and not isinstance(x, bool) else str(x)
+    rows = []
+    for u in spec["user_instrs"]:
+        val = _json.dumps(u["value"]).replace(" ", "") if "value" in u else "-"
+        rows.append("~".join([u["id"], u["disasm"], val, ",".join(at(a) for a in u["inpt_sk"]), ",".join(str(o) for o in u["outpt_sk"]),
+                              "1" if u.get("commutative") else "0"]))
+    return "|".join([",".join(str(v) for v in spec["src_ws"]), ",".join(at(a) for a in spec["tgt_ws"]), ";".join(rows)])
+
+
+def t_cmp(t):
+    """specifications of two blocks as the tool derives them, the real compare_target_stack on them and the real
+    compare_variables on a grid of variable pairs (C05 correspondence with Models/Cmp.lean)"""
+    from verification import sfs_verify
+    p = params_for(t["opts"])
+    r = {"a": t["a"], "b": t["b"], "subs": []}
+    try:
+        A = impl.parse_block(t["a"])[0]
+        B = impl.parse_block(t["b"])[0]
+        with impl.quiet():
+            da, _ = impl.gasol_asm.compute_original_sfs_with_simplifications(A, p)
+            db, _ = impl.gasol_asm.compute_original_sfs_with_simplifications(B, p)
+    except Exception as ex:
+        r["exception"] = "%s: %s" % (type(ex).__name__, ex)
+        return r
+    sa, sb = da["syrup_contract"], db["syrup_contract"]
+    for key in sa:
+        if key not in sb:
+            continue
+        O, P = sa[key], sb[key]
+
+        def call(f, *args):
+            try:
+                res = f(*args)
+                return "true" if (res[0] if isinstance(res, tuple) else res) else "false"
+            except RecursionError:
+                return "recursion"
+            except Exception:
+                return "raise"
+        e = {"key": key, "O": _ser_cspec(O), "P": _ser_cspec(P)}
+        if any(ch in e["O"] + e["P"] for ch in "\t\n"):
+            continue
+        e["target"] = call(sfs_verify.compare_target_stack, O, P)
+        vo = [x for x in dict.fromkeys(list(O["tgt_ws"]) + [a for u in O["user_instrs"] for a in u["inpt_sk"]] + list(O["src_ws"]))][:8]
+        vp = [x for x in dict.fromkeys(list(P["tgt_ws"]) + [a for u in P["user_instrs"] for a in u["inpt_sk"]] + list(P["src_ws"]))][:8]
+        pairs, outs = [], []
+        for x in vo:
+            for y in vp:
+                pairs.append("%s,%s" % ("#%d" % x if isinstance(x, int) else x, "#%d" % y if isinstance(y, int) else y))
+                outs.append(call(sfs_verify.compare_variables, x, y, O["src_ws"], P["src_ws"], O["user_instrs"], P["user_instrs"]))
+        e["pairs"], e["pair_results"] = pairs, outs
+        r["subs"].append(e)
+    return r
+
+
+KINDS.update({"cmp": t_cmp})
